@@ -1353,3 +1353,6 @@ impl ParserExpressionTreeDataVisualizer {
         }
     }
 }
+#[cfg(kani)]
+#[path = "/verif/kani/parser.rs"]
+mod verif_kani;
